@@ -6,7 +6,10 @@ package main
 // Standard (https://url.spec.whatwg.org/, state machine + host parser) and its conformance data (urltestdata.json),
 // reduced to the origin. They run at the start of TestVerif_C06; a failure is a rig failure, not a property verdict.
 
-import "fmt"
+import (
+	"fmt"
+	"strings"
+)
 
 type c06SpecCase struct {
 	In, Base, Want string // Want: "FAIL" | "own" | "scheme://host:port" | "nonspecial:<scheme>" | "file"
@@ -271,6 +274,15 @@ func c06SelfTest() (n int, failures []string) {
 		b, ok := c06ParseBase(c[0], c[1])
 		if !ok || b.String() != c[2] {
 			failures = append(failures, fmt.Sprintf("ParseBase(%s,%s) = %v %v want %s", c[0], c[1], b, ok, c[2]))
+		}
+	}
+	// characters whose Go case mapping lands on ASCII: a browser (UTS #46) maps U+0130 to "i" + U+0307 (another, punycoded
+	// domain) but U+212A KELVIN SIGN and U+017F LONG S to plain k / s (the same domain)
+	for _, c := range [][3]string{{"https://w\u0130ki.test/", "xn--", "wiki.test"}, {"https://w%C4%B0ki.test/", "xn--", "wiki.test"}, {"https://wi\u212ai.test/", "wiki.test", ""}, {"https://te\u017ft.test/", "test.test", ""}} {
+		n++
+		u := c06Resolve(c[0], c06Base{"http", "app.test", 80})
+		if u.Kind != "special" || !strings.HasPrefix(u.Host, c[1]) || u.Host == c[2] {
+			failures = append(failures, fmt.Sprintf("BrowserURL(%q) = %s, want a host starting with %q and different from %q", c[0], u, c[1], c[2]))
 		}
 	}
 	for _, c := range c06WLCases {
